@@ -124,13 +124,15 @@ def run(ctx):
                     opts = [("TORUS", (1,) * D, None, (3,) * D), ("SAME", (2,) * D, None, (3,) * D), ("VALID", (1,) * D, None, (3,) * D)]
                     opts.append(([[1, 1]] * D, (1,) * D, None, (2,) * D))  # even filter, symmetric explicit padding
                     opts.append(([[1, 1]] * D, (1,) * D, [2] * D, (3,) * D))  # transposed convolution
+                    opts.append(("SAME", (1,) * D, [2] * D, (3,) * D))  # transposed convolution with zero 'same' padding
+                    opts.append((None, (1,) * D, [2] + [1] * (D - 1), (3,) * D))  # default padding (TORUS or SAME by flags), anisotropic image dilation
                     if D == 2:
                         opts.append((None, (1, 2), None, (3, 5)))  # anisotropic dilation and non-square filter travel with their axes
                         opts.append(([[1, 1], [2, 2]], (1, 1), [2, 1], (2, 3)))
                     for padding, rd, ld, M in opts:
                         if not th and D == 2 and dhash((N, flags, ki, kf, str(padding), rd)) % 3 and not (N == (3, 4) and flags == (True, False)):
                             continue
-                        if D == 3 and not th and padding not in ("TORUS", "SAME") :
+                        if D == 3 and not th and (padding not in ("TORUS", "SAME") or (ld is not None and flags != (True, False, True))):
                             continue
                         jobs.append((ctx.repo, D, N, M, ki, kf, pi, pf, flags, padding, rd, ld, (5,) if th else ()))
     by = {}
